@@ -69,6 +69,15 @@ func allOfMembers(cfg gen.Config) []member {
 		out = append(out, member{name: "allOf: a composition tightens properties of its referenced base; the base is also used on its own", cfg: cfg,
 			root: obj(&fam.Prop{Label: "comp", Spec: comp, Required: true}, &fam.Prop{Label: "plain", Spec: shared})})
 	}
+	// two compositions over one base; the FIRST restates a base property with a further keyword: the second must not inherit it
+	{
+		shared := obj(&fam.Prop{Label: "n", Spec: &fam.Spec{Kind: "integer", Kw: []string{"minimum"}}})
+		shared.Ref = "$defs"
+		first := &fam.Spec{Kind: "object", AllOf: []*fam.Spec{shared, obj(&fam.Prop{Label: "n1", SameAs: "n", Spec: &fam.Spec{Kind: "integer", Kw: []string{"maximum"}}})}}
+		second := &fam.Spec{Kind: "object", AllOf: []*fam.Spec{shared, obj(&fam.Prop{Label: "x", Spec: str()})}}
+		out = append(out, member{name: "allOf pollution: the first of two compositions over one base restates a base property", cfg: cfg, tag: "second composition over a base that an earlier composition restated",
+			root: obj(&fam.Prop{Label: "first", Spec: first, Required: true}, &fam.Prop{Label: "second", Spec: second})})
+	}
 	// a branch without a "type" keyword FIRST (properties only / required only), followed by a typed or referenced object branch
 	{
 		untyped := obj(&fam.Prop{Label: "u", Spec: str("minLength"), Required: true})
